@@ -464,13 +464,59 @@ def merge_alignment(ck, w, rid_a, rid_b):
                 if (variant, src) not in (("Left", frozenset({"next_a"})), ("Right", frozenset({"next_b"}))) and \
                         not ((variant == "Left" and src == {"next_a"}) or (variant == "Right" and src == {"next_b"})):
                     problems.append("one-sided case builds %s from %s" % (variant, sorted(src)))
-            if len(others) != 2:
-                problems.append("expected 2 one-sided constructions, found %d" % len(others))
+            # one side exhausted: either built directly (above) or expressed as a constant ordering that joins the
+            # comparison result before the switch (`(Some, None) => Less`). A constant must be guarded by the
+            # exhaustion of the OTHER side; and in either form the merge ends (returns None) only when both
+            # sides are exhausted.
+            ne = {"next_a": _field_none_edges(lib, mn, "next_a"), "next_b": _field_none_edges(lib, mn, "next_b")}
+            carr = flow.result_carriers(mn, cm[0].dest["l"])
+            consts = [(bb, s) for bb, j, s in rules.agg_sites(mn, "std::cmp::Ordering") if s["pl"]["l"] in carr and not s["pl"]["p"]]
+            for bb, s in consts:
+                variant = s["rv"]["variant"]
+                need = {"Less": "next_b", "Greater": "next_a"}.get(variant)
+                if need is None:
+                    problems.append("a constant %s joins the comparison result" % variant)
+                elif not ne[need] or not mn.must_pass_edges(ne[need], bb):
+                    problems.append("constant %s is not guarded by %s being exhausted" % (variant, need))
+            if len(others) + len(consts) != 2:
+                problems.append("expected 2 one-sided cases, found %d" % (len(others) + len(consts)))
+            ends = [bb for bb, j, s in rules.agg_sites(mn, "std::option::Option", "None") if s["pl"]["l"] == 0 and not s["pl"]["p"]]
+            for bb in ends:
+                for f in ("next_a", "next_b"):
+                    if not ne[f] or not mn.must_pass_edges(ne[f], bb):
+                        problems.append("the merge can end while %s still holds an entry" % f)
         if problems:
             for m in problems:
                 ck.fail(o, mn.name, m, m)
         else:
             ck.ok(o, instances=5)
+
+
+def _field_none_edges(lib, body, field):
+    """Edges taken exactly when `self.<field>` (an Option) is None: the None arm of a match on it (also through a
+    tuple of references), the true edge of is_none(), the false edge of is_some()."""
+    edges = set()
+
+    def is_field(op):
+        return any(x[0] in ("param", "upvar") and field in x[2] for x in flow.origins_x(lib, body, op))
+    for bb in body.live:
+        t = body.blocks[bb]["term"]
+        if t["tk"] != "switch":
+            continue
+        dl = flow.operand_local(t["discr"])
+        for s in reversed(body.blocks[bb]["stmts"]):
+            if s["sk"] == "assign" and s["pl"]["l"] == dl and not s["pl"]["p"]:
+                if s["rv"]["rk"] == "discr" and is_field({"k": "copy", "pl": s["rv"]["pl"]}):
+                    arms = {int(a[0]): a[1] for a in t["arms"]}
+                    tgt = arms.get(0, t["otherwise"])
+                    if tgt is not None:
+                        edges.add((bb, tgt))
+                break
+    for e in body.events:
+        if e.bb in body.live and e.args and e.name in ("std::option::Option::<T>::is_none", "std::option::Option::<T>::is_some") and is_field(e.args[0]):
+            te, fe = flow.bool_switch_edges(body, e.dest["l"])
+            edges |= te if e.name.endswith("is_none") else fe
+    return edges
 
 
 HIDING = re.compile(r"Iterator::(skip|take|step_by|take_while|skip_while|nth|last|map_while|rev)$|Vec::<T, A>::(truncate|pop|remove|swap_remove|drain|retain|dedup\w*)$|<impl \[T\]>::(first|last|split_at|split_first|split_last)$")
